@@ -269,6 +269,8 @@ def match_known(pid, v, known):
             continue
         if "replay_regex" in m and not re.search(m["replay_regex"], json.dumps(v.get("replay"), sort_keys=True)):
             continue
+        if "desc_regex" in m and not re.search(m["desc_regex"], v.get("desc") or ""):
+            continue
         return k
     return None
 
